@@ -267,6 +267,9 @@ func parseDataInputTokens(cfg *SuiteConfig, input string) error {
 		tokU := upperASCII(tok)
 		switch {
 		case tokU == "C":
+			if cfg.IncludeCounter {
+				return fmt.Errorf("data input %q given more than once", tok)
+			}
 			cfg.IncludeCounter = true
 		case strings.HasPrefix(tokU, "QN"), strings.HasPrefix(tokU, "QA"), strings.HasPrefix(tokU, "QH"):
 			// e.g. "QN08": format letter (N, A or H) followed by the length 08 or 10
@@ -274,9 +277,15 @@ func parseDataInputTokens(cfg *SuiteConfig, input string) error {
 			if !ok {
 				return fmt.Errorf("unsupported challenge spec %q", tok)
 			}
+			if cfg.IncludeChallenge {
+				return fmt.Errorf("more than one challenge spec: %q", tok)
+			}
 			cfg.IncludeChallenge = true
 			cfg.Challenge = format
 		case strings.HasPrefix(tokU, "PSHA"):
+			if cfg.IncludePassword {
+				return fmt.Errorf("more than one password hash: %q", tok)
+			}
 			cfg.IncludePassword = true
 			switch tokU {
 			case "PSHA1":
@@ -290,6 +299,9 @@ func parseDataInputTokens(cfg *SuiteConfig, input string) error {
 			}
 		case strings.HasPrefix(tokU, "T"):
 			// This might parse e.g. "T1M" => 60 seconds
+			if cfg.IncludeTimestamp {
+				return fmt.Errorf("more than one time spec: %q", tok)
+			}
 			cfg.IncludeTimestamp = true
 			// parse after 'T', e.g. "1M" => 60, "30S" => 30, "1H" => 3600
 			gran := tok[1:]
@@ -301,6 +313,9 @@ func parseDataInputTokens(cfg *SuiteConfig, input string) error {
 		case strings.HasPrefix(tokU, "S"): // session data: "S" or "Snnn", e.g. "S064"
 			if n := tokU[1:]; n != "" && (len(n) != 3 || strings.Trim(n, "0123456789") != "") {
 				return fmt.Errorf("invalid session spec %q", tok)
+			}
+			if cfg.IncludeSession {
+				return fmt.Errorf("more than one session spec: %q", tok)
 			}
 			cfg.IncludeSession = true
 		default:
